@@ -3,6 +3,7 @@
 // Same line protocol as the generated drivers (cif_support.hh).
 #include "cif_support.hh"
 #include <ctime>
+#include "ppl_c_implementation_common_defs.hh"   // the hand-written helper classes of the interface (regenerated copy)
 
 static ppl_Polyhedron_t cube(unsigned n) {
   ppl_Polyhedron_t p; ppl_new_C_Polyhedron_from_space_dimension(&p, n, 0);
@@ -266,6 +267,104 @@ int main(int argc, char** argv) {
                    [&] { return ppl_new_Linear_Expression_from_Grid_Generator(&le, gg1.h); },
                    [&] { want = cif::xdump(Linear_Expression(cif::cxx((ppl_const_Grid_Generator_t) gg1.h).expression())); return 0; }, same);
 #endif
+  }
+
+  // ---- (6) the partial-function wrapper given to map_space_dimensions, against the Coq model CIface/PFunc.v:
+  //   every array over {undefined, 0, 1, 2, 3} of length 0..4; observers called twice (they cache) and in both orders.
+  //   line  P|<array, u = undefined>|<has_empty_codomain>|<max_in_codomain or ->|<maps(0..n) : value or u>
+  {
+    typedef Parma_Polyhedra_Library::Interfaces::C::Array_Partial_Function_Wrapper APW;
+    const dimension_type nd = not_a_dimension();
+    for (int n = 0; n <= 4; ++n) {
+      int total = 1; for (int k = 0; k < n; ++k) total *= 5;
+      for (int code = 0; code < total; ++code) {
+        std::vector<dimension_type> v(n ? n : 1, nd); int c = code;
+        std::string arr;
+        for (int k = 0; k < n; ++k) { int d = c % 5; c /= 5; v[k] = d == 0 ? nd : (dimension_type) (d - 1); arr += d == 0 ? 'u' : (char) ('0' + d - 1); }
+        APW w1(v.data(), (size_t) n), w2(v.data(), (size_t) n);
+        bool e1 = w1.has_empty_codomain();
+        std::string mx = "-";
+        if (!e1) { dimension_type m1 = w1.max_in_codomain(), m2 = w2.max_in_codomain(); bool e2 = w2.has_empty_codomain();
+          mx = (m1 == m2 && m1 == w1.max_in_codomain() && e2 == e1 && w1.has_empty_codomain() == e1) ? std::to_string((unsigned long) m1) : std::string("unstable"); }
+        else if (w2.has_empty_codomain() != e1 || !w1.has_empty_codomain()) mx = "unstable";
+        std::string mp;
+        for (int i = 0; i <= n; ++i) { dimension_type j = 77; bool b = w1.maps((dimension_type) i, j); mp += b ? (char) ('0' + (int) j) : 'u'; if (!b && j != 77) mp += '!'; }
+        std::printf("P|%s|%d|%s|%s\n", arr.c_str(), e1 ? 1 : 0, mx.c_str(), mp.c_str());
+      }
+    }
+  }
+
+  // ---- (7) output entries on SEQUENCES: the text printed for an object must not depend on what was printed before.
+  //   Every printable common type, built over a variable of index 0, 25, 26, 27, 51, 52, 700 (and back), printed through
+  //   asprint / fprint (and print for variables and constraints), is compared with the C++ operator<< under
+  //   Variable::default_output_function (installed temporarily: independent of the C interface's own naming function).
+  {
+    long nprint = 0, nbad = 0;
+    auto cxx_text = [&](std::function<void(std::ostream&)> f) -> std::string {
+      Variable::output_function_type* keep = Variable::get_output_function();
+      Variable::set_output_function(&Variable::default_output_function);
+      std::ostringstream s; f(s);
+      Variable::set_output_function(keep);
+      return s.str(); };
+    auto report = [&](const char* entry, unsigned long idx, int r, const std::string& got, const std::string& want) {
+      ++nprint;
+      if (r != 0 || got != want) { ++nbad; std::printf("N|%s|%lu|%d|%s|%s\n", entry, idx, r, cif::esc(got).c_str(), cif::esc(want).c_str()); } };
+    auto via_file = [&](std::function<int(FILE*)> f, int& r) -> std::string {
+      char* b = 0; size_t l = 0; FILE* fp = open_memstream(&b, &l); r = f(fp); fclose(fp); std::string s(b, l); free(b); return s; };
+    auto via_stdout = [&](std::function<int()> f, int& r) -> std::string {
+      fflush(stdout); FILE* keep = stdout; char* b = 0; size_t l = 0; stdout = open_memstream(&b, &l); r = f(); fclose(stdout); stdout = keep; std::string s(b, l); free(b); return s; };
+    const unsigned long idxs[] = {0, 25, 26, 27, 51, 52, 700, 0, 26, 1, 700, 2, 0};
+    for (int round = 0; round < 2; ++round)
+    for (size_t q = 0; q < sizeof idxs / sizeof idxs[0]; ++q) {
+      unsigned long ix = idxs[q];
+      Variable V(ix);
+      int r; char* sp;
+      // variables
+      std::string wv = cxx_text([&](std::ostream& s) { Variable::default_output_function(s, V); });
+      sp = 0; r = ppl_io_asprint_variable(&sp, ix); report("ppl_io_asprint_variable", ix, r, sp ? sp : "<null>", wv); free(sp);
+      { std::string g = via_file([&](FILE* f) { return ppl_io_fprint_variable(f, ix); }, r); report("ppl_io_fprint_variable", ix, r, g, wv); }
+      { std::string g = via_stdout([&] { return ppl_io_print_variable(ix); }, r); report("ppl_io_print_variable", ix, r, g, wv); }
+      // objects over that variable (built in C++, printed through their C handles)
+      Linear_Expression le = 3 * V - 2; if (ix > 0) le += Variable(0);
+      Constraint c = (le >= 0);
+      Congruence cg = (le %= 1) / 3;
+      Generator g = Generator::point(le, 2);
+      Grid_Generator gg = Grid_Generator::grid_point(le, 2);
+      Constraint_System cs; cs.insert(c); cs.insert(V <= 5);
+      Generator_System gs; gs.insert(g); gs.insert(Generator::ray(V));
+      Congruence_System cgs; cgs.insert(cg);
+      Grid_Generator_System ggs; ggs.insert(gg);
+      Coefficient co(-12345);
+      using namespace IO_Operators;
+#define CIF_PRINTED(TYPE, OBJ) { \
+        std::string w = cxx_text([&](std::ostream& s) { s << OBJ; }); \
+        sp = 0; r = ppl_io_asprint_##TYPE(&sp, cif::chnd(&OBJ)); report("ppl_io_asprint_" #TYPE, ix, r, sp ? sp : "<null>", w); free(sp); \
+        std::string gf = via_file([&](FILE* f) { return ppl_io_fprint_##TYPE(f, cif::chnd(&OBJ)); }, r); report("ppl_io_fprint_" #TYPE, ix, r, gf, w); \
+        std::string gp = via_stdout([&] { return ppl_io_print_##TYPE(cif::chnd(&OBJ)); }, r); report("ppl_io_print_" #TYPE, ix, r, gp, w); }
+      CIF_PRINTED(Coefficient, co)
+      CIF_PRINTED(Linear_Expression, le)
+      CIF_PRINTED(Constraint, c)
+      CIF_PRINTED(Constraint_System, cs)
+      CIF_PRINTED(Generator, g)
+      CIF_PRINTED(Generator_System, gs)
+      CIF_PRINTED(Congruence, cg)
+      CIF_PRINTED(Congruence_System, cgs)
+      CIF_PRINTED(Grid_Generator, gg)
+      CIF_PRINTED(Grid_Generator_System, ggs)
+#undef CIF_PRINTED
+    }
+    // a client naming function, then back to the default one
+    {
+      ppl_io_variable_output_function_type* dflt = 0; int r0 = ppl_io_get_variable_output_function(&dflt);
+      struct L { static const char* name(ppl_dimension_type v) { static char b[32]; std::snprintf(b, sizeof b, "x_%lu", (unsigned long) v); return b; } };
+      int r1 = ppl_io_set_variable_output_function(&L::name);
+      char* sp = 0; int r = ppl_io_asprint_variable(&sp, 27); report("ppl_io_set_variable_output_function", 27, r | r0 | r1, sp ? sp : "<null>", "x_27"); free(sp);
+      Constraint c = (Variable(27) + Variable(0) >= 1); sp = 0; r = ppl_io_asprint_Constraint(&sp, cif::chnd(&c)); report("ppl_io_set_variable_output_function", 27, r, sp ? sp : "<null>", "x_0 + x_27 >= 1"); free(sp);
+      ppl_io_variable_output_function_type* cur = 0; r = ppl_io_get_variable_output_function(&cur); report("ppl_io_get_variable_output_function", 0, r, cur == &L::name ? "same" : "other", "same");
+      r1 = ppl_io_set_variable_output_function(dflt);
+      sp = 0; r = ppl_io_asprint_variable(&sp, 0); report("ppl_io_set_variable_output_function", 0, r | r1, sp ? sp : "<null>", "A"); free(sp);
+    }
+    std::printf("N0|printed=%ld|different=%ld\n", nprint, nbad);
   }
 
   std::printf("S|created=%ld|deleted=%ld|cases=%ld|live=%ld\n", cif::created, cif::deleted, cif::cases, cif::live);
